@@ -270,8 +270,8 @@ _INTERESTING = {
     "color_primaries_index": [0, 1, 2, 3, 4, 5],
     "color_matrix_index": [0, 1, 2, 3, 4, 5],
     "transfer_function_index": [0, 1, 2, 3, 4, 5, 6],
-    "luma_excursion": [0, 1, 2, 255, 256, 1023, 65535, 1 << 20, (1 << 40) + 1, (1 << 31) - 1, (1 << 29) - 1],
-    "color_diff_excursion": [0, 1, 2, 255, 256, 1023, 65535, 1 << 20, (1 << 40) + 1, (1 << 31) - 1, (1 << 29) - 1],
+    "luma_excursion": [0, 1, 2, 255, 256, 1023, 65535, 1 << 20, (1 << 72) + 1, (1 << 31) - 1, (1 << 29) - 1, 1 << 31, 1 << 32, (1 << 63) - 1, 1 << 63, (1 << 64) - 1, 1 << 64],
+    "color_diff_excursion": [0, 1, 2, 255, 256, 1023, 65535, 1 << 20, (1 << 72) + 1, (1 << 31) - 1, (1 << 29) - 1, 1 << 31, 1 << 32, (1 << 63) - 1, 1 << 63, (1 << 64) - 1, 1 << 64],
     "fragment_slice_count": [0, 1, 2, 3, 4, 100],
     "fragment_x_offset": [0, 1, 2, 3, 100],
     "fragment_y_offset": [0, 1, 2, 3, 100],
@@ -279,9 +279,18 @@ _INTERESTING = {
 }
 
 
+def huge_value(rng):
+    """A value whose exp-Golomb code needs 17..80 data bits, with random data
+    bits (legal syntax: the code has no length limit)."""
+    nb = rng.choice([17, 31, 32, 33, 34, 35, 40, 48, 63, 64, 65, 72, 80])
+    return (1 << (nb - 1)) | rng.getrandbits(nb - 1)
+
+
 def interesting_value(rng, f):
     cands = _INTERESTING.get(f.name)
     r = rng.random()
+    if rng.random() < 0.06:
+        return huge_value(rng)
     if cands and r < 0.7:
         return rng.choice(cands)
     v = f.value if isinstance(f.value, int) else 0
@@ -293,7 +302,7 @@ def interesting_value(rng, f):
 
 
 BYTE_KINDS = ["flip", "set", "burst", "zero", "trunc", "del", "dup", "ins", "swap", "append"]
-FIELD_KINDS = ["f_frag_alias", "f_fixed", "f_uint", "f_bool", "f_coeff", "f_offsets", "f_picnum", "f_trunc_unit", "f_unit_drop", "f_unit_dup", "f_lenbyte", "f_ld_resize"]
+FIELD_KINDS = ["f_coeff_huge", "f_frag_alias", "f_fixed", "f_uint", "f_bool", "f_coeff", "f_offsets", "f_picnum", "f_trunc_unit", "f_unit_drop", "f_unit_dup", "f_lenbyte", "f_ld_resize"]
 ALL_KINDS = BYTE_KINDS + FIELD_KINDS
 
 
@@ -409,6 +418,51 @@ def gen_fault(rng, fmap, kind, data_len):
         span = rng.choice([1, 1, 2, 8, 24])
         bit = f.start + rng.randrange(span)
         return {"k": "flip", "bit": bit, "field": f.name}, bit // 8
+    if kind == "f_coeff_huge":
+        # re-code one coefficient of a length-delimited (bounded) block of slice
+        # data as a value needing 17..80 data bits and fill the rest of the block
+        # with 1 bits (each a zero coefficient; reads past the end give 1s too):
+        # the stream stays framed, so the validator still accepts it
+        fs = fmap.by_kind.get("coeff")
+        if not fs:
+            return None
+        f = rng.choice(fs)
+        blk = None
+        scaler = 1
+        for g in fmap.fields:
+            if g.start >= f.start:
+                break
+            if g.name == "slice_size_scaler":
+                scaler = g.value
+            if g.unit == f.unit and g.name in ("slice_y_length", "slice_c1_length", "slice_c2_length"):
+                blk = g
+        if blk is None:
+            return None
+        # HQ length fields count slice_size_scaler-byte units; the LD
+        # slice_y_length counts bits
+        hq = fmap.units[f.unit]["code"] in (0xE8, 0xEC) if 0 <= f.unit < len(fmap.units) else False
+        nbits = blk.value * 8 * max(1, scaler) if hq else blk.value
+        end = blk.end + nbits
+        if not (blk.end <= f.start < end) or end > n * 8:
+            return None
+        v = huge_value(rng)
+        code = exp_golomb(v) + rng.choice("01")
+        room = end - f.start
+        if len(code) > room:
+            # as large a value as fits
+            k = (room - 2) // 2
+            if k < 1:
+                return None
+            v = (1 << k) | rng.getrandbits(k)
+            code = exp_golomb(v - 1) + rng.choice("01")
+            if len(code) > room:
+                return None
+        bits = code + "1" * (room - len(code))
+        ops = []
+        pos = f.start
+        # setbits handles arbitrary widths (big-int masking)
+        ops.append({"k": "setbits", "bit": pos, "n": len(bits), "val": int(bits, 2), "field": f.name})
+        return {"k": "seq", "ops": ops, "value_bits": v.bit_length()}, f.start // 8
     if kind == "f_offsets":
         us = [u for u in fmap.units if u["code"] is not None]
         if not us:
